@@ -31,6 +31,8 @@ func main() {
 		os.Exit(cmdManifest())
 	case "check":
 		os.Exit(cmdCheck(os.Args[2:]))
+	case "matrix":
+		os.Exit(cmdMatrix(os.Args[2:]))
 	case "explain":
 		os.Exit(cmdExplain(os.Args[2:]))
 	case "dump":
@@ -80,6 +82,51 @@ func cmdCheck(args []string) int {
 		return 2
 	}
 	return runCheck(spec, &o)
+}
+
+// cmdMatrix loads the repository once and prints, for every property, the keys of failing obligations and
+// the undecided rules (the same lines "check -keysonly" prints, prefixed by the property). It is a convenience
+// for tools/seedmatrix.sh and tools/benignmatrix.sh; registered checks never use it.
+func cmdMatrix(args []string) int {
+	fs := flag.NewFlagSet("matrix", flag.ExitOnError)
+	repo := fs.String("repo", "/repo", "repository to analyse")
+	fs.Parse(args)
+	abs, err := filepath.Abs(*repo)
+	if err == nil {
+		*repo = abs
+	}
+	c, err := Load(*repo, "", "", false)
+	if err != nil {
+		fmt.Printf("LOADERROR %v\n", err)
+		return 2
+	}
+	var ids []string
+	for id := range propRegistry {
+		ids = append(ids, id)
+	}
+	sort.Strings(ids)
+	for _, id := range ids {
+		var keys, und []string
+		for _, rn := range propRegistry[id].Rules {
+			r := c.runRule(rn)
+			for _, ob := range r.Obls {
+				if !ob.OK {
+					keys = append(keys, ob.Key)
+				}
+			}
+			for _, u := range r.Undecided {
+				und = append(und, r.Rule+": "+u)
+			}
+		}
+		sort.Strings(keys)
+		for _, k := range keys {
+			fmt.Printf("%s FAILKEY %s\n", id, k)
+		}
+		for _, u := range und {
+			fmt.Printf("%s UNDECIDED %s\n", id, u)
+		}
+	}
+	return 0
 }
 
 type ruleEvidence struct {
